@@ -3,7 +3,6 @@
  * (result^2 <= x < (result+1)^2), so the two queries compose. */
 #include "verif.h"
 #include "datetime.h"
-static datetime_sec squareroot_real();
 static datetime_sec sq_ret;      /* what the contract stub returned */
 static int sq_called;
 #ifdef VERIF_CBMC
@@ -17,19 +16,30 @@ static datetime_sec squareroot(datetime_sec x)
   return r;
 }
 #else
-static datetime_sec squareroot(datetime_sec x) { sq_called = 1; return sq_ret = squareroot_real(x); }
+/* native replay: the contract's unique solution, computed without the code under test */
+static datetime_sec squareroot(datetime_sec x)
+{
+  datetime_sec r = 0;
+  sq_called = 1;
+  if (x < 0 || x > 4294967295L) vf_native_fail("squareroot called inside its proved domain");
+  while ((r + 1) * (r + 1) <= x) ++r;
+  return sq_ret = r;
+}
 #endif
 #include "gen_qmail-send.c"
 
+#ifndef CHAN
+#define CHAN 0          /* channel concrete per query: skip is then a constant (10 local, 20 remote) */
+#endif
 datetime_sec in_birth, in_recent;
-int in_c;
+#define in_c CHAN
 
 void sym_inputs(void)
 {
 #ifdef REPLAY
 #include "replay_inputs.inc"
 #else
-  SYM(in_birth); SYM(in_recent); SYM(in_c);
+  SYM(in_birth); SYM(in_recent);
 #endif
 }
 
@@ -39,10 +49,9 @@ void vmain(void)
   sym_inputs();
   ASSUME(in_birth >= 0 && in_birth < (1L << 40));
   ASSUME(in_recent >= 0 && in_recent < (1L << 40));
-  ASSUME(in_c == 0 || in_c == 1);
   ASSUME(in_recent - in_birth <= 4294967295L);          /* age < 2^32 s (136 years) */
   recent = in_recent;
-  skip = in_c ? 20 : 10;                                  /* qmail-send(8): local 10, remote 20 */
+  skip = CHAN ? 20 : 10;                                  /* qmail-send(8): local 10, remote 20 */
   CHECK(chanskip[in_c] == skip, "C15: chanskip is 10 for local, 20 for remote");
   t = nextretry(in_birth, in_c);
   CHECK(t > in_recent, "C15: next retry time lies strictly in the future");
